@@ -579,7 +579,7 @@ def check_fx(chk, b, cases, amap, lres, replay, found_so_far=False):
             lines.append((cid, "%s %s %s %s pairs=%s" % (cid, code[0], strs[0], buf[0], ",".join(p.split("|", 1)[0] for p in fx[0][3:].split(";")) if fx[0] != "fx=-" else "-"), fx[0]))
     if len(lines) > 6000:
         lines = lines[:: (len(lines) + 5999) // 6000]        # thorough tier: the Lean VM runs on a deterministic sample
-    mm, mcr = rc.run_robust(core, [core.driver_path(), "revm"], [l for _, l, _ in lines], chunk_timeout=100, single_timeout=15)
+    mm, mcr = rc.run_robust(core, [core.driver_path(), "revm"], [l for _, l, _ in lines], chunk_timeout=45, single_timeout=10)
     skipped = set(c.split(" ", 1)[0] for c, _, _ in mcr)          # the model ran out of time on these (fuel-bounded loops)
     bad = 0
     found = False
